@@ -22,6 +22,7 @@ from hypothesis import strategies as st
 
 from hio import hioing
 from hio.base import filing
+from vlib import fsbox
 from vlib.core import WORK, Result, assert_in_tree
 
 assert_in_tree(filing)
@@ -48,75 +49,8 @@ TOP = os.path.join(WORK, "C29.%d" % os.getpid())
 BOX = os.path.join(TOP, "l1", "l2", "l3", "l4", "l5", "l6", "l7", "l8", "box")
 
 
-class EscapeAttempt(Exception):
-    """The code under test tried to create / remove / change a path outside the sandbox. Not an OSError on
-    purpose: Filer's own 'except OSError' fallbacks must not swallow it."""
-
-    def __init__(self, op, path):
-        super().__init__("%s(%r)" % (op, path))
-        self.op = op
-        self.path = path
-
-
-def _inside_box(path):
-    p = os.path.realpath(os.path.abspath(os.fspath(path)))
-    b = os.path.realpath(BOX)
-    return p.startswith(b + os.sep)          # strictly inside: the box itself may not be removed either
-
-
-class _Guard:
-    """Module proxy: attribute access falls through to the real module; the listed callables check their leading
-    path arguments first; `overrides` replaces callables outright."""
-
-    def __init__(self, real, guarded, overrides=None):
-        self._real = real
-        self._guarded = guarded
-        self._overrides = overrides or {}
-
-    def __getattr__(self, name):
-        if name in self._overrides:
-            return self._overrides[name]
-        val = getattr(self._real, name)
-        npaths = self._guarded.get(name)
-        if npaths is None:
-            return val
-
-        def checked(*a, **kw):
-            for x in list(a[:npaths]) + [kw[k] for k in ("path", "name", "src", "dst", "dir") if k in kw]:
-                if isinstance(x, (str, bytes, os.PathLike)) and not _inside_box(x):
-                    raise EscapeAttempt("%s.%s" % (self._real.__name__, name), os.fspath(x))
-            return val(*a, **kw)
-        return checked
-
-
-_OS_GUARDED = {"makedirs": 1, "mkdir": 1, "remove": 1, "unlink": 1, "rmdir": 1, "removedirs": 1, "chmod": 1, "chown": 1,
-               "rename": 2, "replace": 2, "renames": 2, "open": 1, "symlink": 2, "link": 2, "truncate": 1, "mkfifo": 1}
-_SHUTIL_GUARDED = {"rmtree": 1, "move": 2, "copy": 2, "copy2": 2, "copyfile": 2, "copytree": 2, "chown": 1}
-
-import tempfile as _real_tempfile     # noqa: E402
-_real_ocfn = filing.ocfn
-
-
-def _guarded_mkdtemp(suffix=None, prefix=None, dir=None):      # noqa: A002
-    if dir is None or not _inside_box(os.path.join(dir, "x")):
-        raise EscapeAttempt("tempfile.mkdtemp", str(dir))
-    return _real_tempfile.mkdtemp(suffix=suffix, prefix=prefix, dir=dir)
-
-
-def _guarded_ocfn(path, *a, **kw):
-    if not _inside_box(path):
-        raise EscapeAttempt("ocfn", os.fspath(path))
-    return _real_ocfn(path, *a, **kw)
-
-
-for _name in ("os", "shutil", "tempfile", "ocfn"):
-    if not hasattr(filing, _name):
-        raise AssertionError("hio.base.filing no longer has a module level %r: the guard must be revisited before "
-                             "this check may run" % _name)
-filing.os = _Guard(os, _OS_GUARDED)
-filing.shutil = _Guard(shutil, _SHUTIL_GUARDED)
-filing.tempfile = _Guard(_real_tempfile, {}, {"mkdtemp": _guarded_mkdtemp})
-filing.ocfn = _guarded_ocfn
+from vlib.fsbox import EscapeAttempt, inside as _inside_box       # noqa: E402
+fsbox.install(BOX)
 
 
 class BoxFiler(filing.Filer):
